@@ -28,6 +28,54 @@ RULE_TEXT = 'obligation = one clause about get_cost / forward / link_combiners_t
             '_get_single_cost, per path'
 
 
+def memo_rule(ctx, rule: str, label: str, fn, i_spec: int, i_map: int):
+    """A cost routine that receives (cost_spec, cost_fn_map) may keep state on self between
+    calls only if the state is keyed by what it was computed from: every attribute / entry it
+    writes AND reads back (in its result or in a branch condition) must be stored under a key
+    that mentions the specification or the function map; otherwise the value computed for the
+    first metric is returned for the second one."""
+    repo = ctx.repo
+    spec_params = {('param', fn.params[i_spec]), ('param', fn.params[i_map])}
+    caches = {}
+    for p in returning(paths(repo, fn)):
+        for e in p.events:
+            if e.kind == 'setitem' and e.data[0][0] == 'attr' and e.data[0][1] == SELF:
+                caches.setdefault(e.data[0][2], []).append((e.data[1], e))
+            if e.kind == 'setattr' and e.data[0] == SELF:
+                caches.setdefault(e.data[1], []).append((None, e))
+    read_back = {}
+    for p in returning(paths(repo, fn)):
+        terms = [p.retval] + [a for a, _ in p.assumptions] + \
+            [e.data[0] for e in p.events if e.kind == 'assume']
+        for name in caches:
+            if any(mentions(t, lambda x, name=name: x == ('attr', SELF, name)) for t in terms):
+                read_back[name] = True
+    for name, items in sorted(caches.items()):
+        if name not in read_back:
+            continue
+        def opaque(t):
+            # a loop variable does not carry the identity of the collection it ranges over
+            if isinstance(t, tuple):
+                if t and t[0] == 'elem':
+                    return ('elem',)
+                return tuple(opaque(x) for x in t)
+            return t
+        keyed = all(k is not None and mentions(opaque(k), lambda x: x in spec_params or
+                                               (is_call(x, 'builtins.id') and x[2] and
+                                                x[2][0] in spec_params)) for k, _ in items)
+        ctx.ob(rule, f'{label} memoised state {name}', keyed,
+               f'{name} is keyed by the cost specification' if keyed else
+               f'{label} stores values computed from its cost functions in self.{name} keyed by '
+               f'{[short(k, 40) if k else "nothing" for k, _ in items][:2]} and reads them back: '
+               f'the key does not identify the cost specification / function map, so the second '
+               f'metric evaluated on the same model is charged with values computed for the '
+               f'first one', where(fn, items[0][1].node))
+    if not any(n in read_back for n in caches):
+        ctx.ob(rule, f'{label} keeps no state between metrics', True,
+               'the cost is recomputed from the function map it is given', where(fn),
+               nontrivial=False)
+
+
 def run(ctx):
     repo = ctx.repo
     comb = repo.cls('SuperNetCombiner')
@@ -72,39 +120,10 @@ def run(ctx):
                               y[2][0] == ('const', 0))
         ctx.ob('R06a', 'SuperNetCombiner.get_cost accumulates from zero', zero_start,
                'starts from 0', where(gc), nontrivial=False)
-    # R06e: no value computed for one metric may be re-used for another (memoisation keyed by
-    # the branch only is stale as soon as a second cost specification is evaluated)
-    spec_params = {('param', gc.params[1]), ('param', gc.params[2])}
-    caches = {}
-    for p in returning(paths(repo, gc)):
-        for e in p.events:
-            if e.kind == 'setitem' and e.data[0][0] == 'attr' and e.data[0][1] == SELF:
-                caches.setdefault(e.data[0][2], []).append((e.data[1], e))
-            if e.kind == 'setattr' and e.data[0] == SELF:
-                caches.setdefault(e.data[1], []).append((None, e))
-    read_back = {}
-    for p in returning(paths(repo, gc)):
-        terms = [p.retval] + [a for a, _ in p.assumptions]
-        for name in caches:
-            if any(mentions(t, lambda x, name=name: x == ('attr', SELF, name)) for t in terms):
-                read_back[name] = True
-    for name, items in sorted(caches.items()):
-        if name not in read_back:
-            continue
-        keyed = all(k is not None and mentions(k, lambda x: x in spec_params or
-                                               (is_call(x, 'builtins.id') and x[2] and
-                                                x[2][0] in spec_params)) for k, _ in items)
-        ctx.ob('R06e', f'SuperNetCombiner.get_cost memoised state {name}', keyed,
-               f'{name} is keyed by the cost specification' if keyed else
-               f'get_cost stores per-branch values in self.{name} keyed by '
-               f'{[short(k, 40) if k else "nothing" for k, _ in items][:2]} and reads them back: '
-               f'the key does not identify the cost specification / function map, so the second '
-               f'metric evaluated on the same SuperNet is charged with the first metric\'s branch '
-               f'costs', where(gc, items[0][1].node))
-    if not any(n in read_back for n in caches):
-        ctx.ob('R06e', 'SuperNetCombiner.get_cost keeps no state between metrics', True,
-               'the cost is recomputed from the function map it is given', where(gc),
-               nontrivial=False)
+    # R06e: no value computed for one metric may be re-used for another
+    memo_rule(ctx, 'R06e', 'SuperNetCombiner.get_cost', gc, 1, 2)
+    sgc = repo.cls('SuperNet').methods['_get_single_cost']
+    memo_rule(ctx, 'R06e', 'SuperNet._get_single_cost', sgc, 1, 2)
     for p in returning(paths(repo, fwd)):
         if any(e.kind == 'loop0' for e in p.events):
             continue
